@@ -5,3 +5,4 @@ import Model.Kernel
 import Model.MV
 import Model.Text
 import Model.Tensor
+import Model.Dispatch
